@@ -4,6 +4,9 @@ import U3.Lemmas.RespRead
 import U3.Lemmas.RespRead1
 import U3.Lemmas.RespInst
 import U3.Lemmas.RespZstd
+import U3.Lemmas.RespGzip
+import U3.Lemmas.RespDeflate
+import U3.Lemmas.RespMulti
 import U3.Lemmas.RespIter
 import U3.Lemmas.RespWitness
 /-!
@@ -276,6 +279,93 @@ byte-step `decompressobj` — feeding `a ++ b` is feeding `a` then `b`, wherever
 fall relative to the feed boundaries, and `flush` succeeds at the end of a whole number of frames -/
 theorem C12_zstd_multiframe {ρ : Type} (O : RawObj ρ) : StreamLaw (zsDec O) (ZsG O) :=
   zsDec_streamLaw O
+
+/-- **`gzip_multimember`** (full): `GzipDecoder` (first member / further members / trailing garbage
+swallowed) obeys the streaming law for EVERY byte-step `decompressobj`: with `GzG g raw p` = "the
+byte-wise member state machine `gzRun` is defined on `raw` and yields `p`" — any number of members,
+a member boundary anywhere relative to the feed boundaries, an unfinished last member, trailing
+garbage after the first member that fails before producing output — feeding any prefix delivers a
+prefix of `p` and leaves a state that owes the rest; `flush` holds nothing back.  (Where `gzRun` is
+undefined the real decoder raises or is genuinely split-dependent: garbage that decodes some bytes
+and then fails loses the output of the failing call only.) -/
+theorem C12_gzip_multimember {ρ : Type} (O : RawObj ρ) : StreamLaw (gzDec O) (GzG O) :=
+  gzDec_streamLaw O
+
+/-- **`deflate_fallback`** (full): `DeflateDecoder` (try zlib; on an error before the first output
+switch to raw deflate and replay everything seen so far) obeys the streaming law for EVERY pair of
+byte-step `decompressobj`s, wherever the feed boundaries fall relative to the point where the zlib
+attempt fails -/
+theorem C12_deflate_fallback {ρ : Type} (Oz Or : RawObj ρ) : StreamLaw (dfDec Oz Or) (DfG Oz Or) :=
+  dfDec_streamLaw Oz Or
+
+/-- **`multidecoder_order`** (full): a `MultiDecoder` over decoders obeying the streaming law obeys
+it too — the codings are undone in reverse header order (`ChainG`: the last decoder sees the raw
+bytes, the first delivers the payload), `flush` of the first decoder suffices at the end -/
+theorem C12_multidecoder_order {δ : Type} (D : Dec δ) (G : δ → Bytes → Bytes → Prop)
+    (hD : StreamLaw D G) : StreamLaw (multiDec D) (MultiG G) :=
+  multiDec_streamLaw hD
+
+/-- the decoder family the driver runs (`_get_decoder`: gzip / x-gzip, deflate, zstd and comma
+lists of them over the stored-block / raw-block `decompressobj`s) obeys the streaming law -/
+theorem C12_decoders_stream_law : StreamLaw cdDec CDGall := cdDec_streamLaw
+
+/-- **`C12_concat` for `http.client` sources and urllib3's decoders** (no hypotheses left on source
+or decoder): on every well-framed Content-Length or close-delimited response (`Inv … payload`: the
+framing invariant `HI` and "buffer ++ what the decoder owes for the raw bytes to come = payload",
+with `CDGall` = the byte-wise semantics of gzip incl. multi-member / deflate incl. raw fallback /
+zstd incl. multi-frame / stacked codings), for every network segmentation and every interleaving of
+`read()`, `read(0)`, `read(n)` (= `readinto(n)`), `read1()`, `read1(n)` with decoding on: no call
+raises, one piece per call, pieces ++ final `read()` = decoded payload.
+Still missing for the full `C12_concat`: see notes/C12.md "Still open". -/
+theorem C12_concat_http_partial (cfg : Cfg CD) (dco : Option Bool) (hdc : dco.getD cfg.decodeDefault = true)
+    (calls : List RCall) (r : R H CD) (payload : Bytes)
+    (hinv : Inv cfg hRem HI CDGall r payload) (hfuel : (hRem r.fp).length + 1 < cfg.fuel) :
+    ∃ outs r' last r'', callSeq hSrc cdDec cfg dco calls r = (.ok outs, r') ∧ outs.length = calls.length ∧
+      read hSrc cdDec cfg r' none dco = (.ok last, r'') ∧ outs.flatten ++ last = payload :=
+  C12_concat_partial hSrc cdDec cfg (hSrc_rawReadSpec cfg) (hSrc_rawReadAllSpec cfg) (hSrc_rawRead1Spec cfg)
+    cdDec_streamLaw dco hdc calls r payload hinv hfuel
+
+/-! non-vacuity of the decoder relations: two gzip members "hello" + "hello" followed by garbage;
+a zlib stream and a raw-deflate stream (fallback with replay) of "hi"; the stack
+`Content-Encoding: deflate, zstd` = zstd(raw-deflate("hi")) -/
+
+example : GzG gzipO (Gz.new gzipO) (gzipHello ++ gzipHello ++ [0, 1, 2]) (lit "hellohello") :=
+  GzG_of_gzOk gzipO _ _ _ rfl (by decide +kernel)
+
+example : DfG zlibO rawO (Df.new zlibO) [0x78, 0x01, 1, 2, 0, 253, 255, 104, 105, 0x01, 0x3b, 0x00, 0xd2] (lit "hi") :=
+  DfG_of_dfOk zlibO rawO _ _ _ (by decide +kernel)
+
+example : DfG zlibO rawO (Df.new zlibO) [1, 2, 0, 253, 255, 104, 105] (lit "hi") :=
+  DfG_of_dfOk zlibO rawO _ _ _ (by decide +kernel)
+
+example : CDGall (.multi [.deflate (Df.new zlibO), .zstd (ZObj.fresh zstdObj)])
+    [40, 181, 47, 253, 32, 7, 57, 0, 0, 1, 2, 0, 253, 255, 104, 105] (lit "hi") :=
+  ⟨by simp, [1, 2, 0, 253, 255, 104, 105],
+    ⟨_, rfl, ZsG_of_zsOk zstdObj _ _ _ rfl (by decide +kernel)⟩,
+    DfG_of_dfOk zlibO rawO _ _ _ (by decide +kernel)⟩
+
+/-- the `Content-Encoding: gzip`, `Content-Length: 28` response "hello" satisfies `Inv` with the
+decoder `_init_decoder` installs, for the segmentation 3 -/
+example : Inv cfgGzipHello hRem HI CDGall
+    ({ fp := hBegin ⟨[], wireGzipHello, 3⟩ none (some (lit "28")) false 200 false,
+       lengthRemaining := some 28, conn := true } : R H CD) (lit "hello") := by
+  generalize hh : hBegin ⟨[], wireGzipHello, 3⟩ none (some (lit "28")) false 200 false = h
+  have hfacts : h.head = false ∧ h.chunked = false ∧ h.closed = false ∧ h.length = some 28 ∧
+      h.fp.map (·.content) = some gzipHello := by
+    subst hh; decide +kernel
+  obtain ⟨h1, h2, h3, h4, h5⟩ := hfacts
+  obtain ⟨f, hf, hc⟩ : ∃ f, h.fp = some f ∧ f.content = gzipHello := by
+    cases hf : h.fp with
+    | none => rw [hf] at h5; cases h5
+    | some f => rw [hf] at h5; exact ⟨f, rfl, by simpa using h5⟩
+  have hrem : hRem h = gzipHello := by
+    simp only [hRem, hf, h4, hc]; decide
+  refine ⟨⟨⟨h1, h2, fun g hg => ⟨h3, fun l hl => ?_⟩⟩, Or.inl ?_⟩, lit "hello", ?_, rfl⟩
+  · rw [hf] at hg; cases hg; rw [h4] at hl; cases hl; rw [hc]; decide
+  · show some (28 : Int) = some ((hRem h).length : Int); rw [hrem]; decide
+  · show CDGall (.one (.gzip (Gz.new gzipO))) (hRem h) (lit "hello")
+    rw [hrem]
+    exact GzG_of_gzOk gzipO _ _ _ rfl (by decide +kernel)
 
 /-! non-vacuity of the hypotheses of the theorems above: the `Content-Length: 20`,
 `Content-Encoding: zstd` response carrying two frames "a" + "a", any segmentation `seg` -/
